@@ -179,7 +179,9 @@ def syscall_monitor(binp, jobs, work, real_dir, viol, stats):
         f.write("// decoy\n")
     p, res = core.run_drive(binp, allj, "c18/strace", markers=True, cwd=cwd, timeout=900,
                             extra_env={"PATH": real_dir + ":/usr/bin:/bin",
-                                       "RUSTFMT": "/bin/false", "FORMATTER": "/bin/false"},
+                                       "RUSTFMT": "/bin/false", "FORMATTER": "/bin/false",
+                                       "OUT_DIR": cwd, "TARGET": "x86_64-unknown-linux-gnu",
+                                       "CARGO_MANIFEST_DIR": cwd},
                             wrapper=["strace", "-f", "-qq", "-s", "64", "-o", tr])
     if p.returncode != 0 or len(res) != len(allj):
         raise core.Inconclusive("strace run failed rc=%s: %s" % (p.returncode, p.stderr[-1500:]))
@@ -420,6 +422,12 @@ def main(tier, replay, t0):
     # formatter on: same directory discipline (no rustfmt.toml), subset of jobs
     if real:
         fj = [dict(j, id=j["id"] + "#fmt", opt=dict(j["opt"], fmt=True)) for j in jobs[::7]]
+        # a temp directory holding a rustfmt.toml (hard tabs): the formatter must not be started
+        # from there
+        tmp_with_config = os.path.join(work, "tmp with config")
+        os.makedirs(tmp_with_config, exist_ok=True)
+        with open(os.path.join(tmp_with_config, "rustfmt.toml"), "w") as f:
+            f.write("hard_tabs = true\nmax_width = 60\n")
         for k in range(4):
             # the environment is not an input either: variables other tools give a meaning to
             # (RUSTFMT, CARGO, RUSTUP_TOOLCHAIN ...) must not select another formatter
@@ -427,9 +435,13 @@ def main(tier, replay, t0):
             # and those select the real formatter's toolchain - the formatter's own business)
             fe = [{}, {"RUSTFMT": "/bin/false"},
                   {"RUSTFMT": "/nonexistent/rustfmt", "RUSTFMT_PATH": "/bin/false",
-                   "FORMATTER": "/bin/false", "WGSL_TO_WGPU_RUSTFMT": "/bin/false"},
+                   "FORMATTER": "/bin/false", "WGSL_TO_WGPU_RUSTFMT": "/bin/false",
+                   "TMPDIR": "/nonexistent-tmp", "TMP": "/nonexistent-tmp",
+                   "TEMP": "/nonexistent-tmp"},
                   {"RUSTFMT": os.path.join(core.VERIF, "stubs", "garbage_exit3", "rustfmt"),
-                   "NO_COLOR": "1", "TERM": "dumb", "LANG": "tr_TR.UTF-8"}][k]
+                   "NO_COLOR": "1", "TERM": "dumb", "LANG": "tr_TR.UTF-8",
+                   "TMPDIR": tmp_with_config, "OUT_DIR": tmp_with_config,
+                   "TARGET": "x86_64-unknown-linux-gnu"}][k]
             fe["PATH"] = real_dir + ":/usr/bin:/bin"
             p, res = core.run_drive(binp, fj, "c18/f%d" % k, shuffle=k + 5,
                                     cwd=cwd_b if k % 2 else cwd_a, extra_env=fe)
